@@ -288,7 +288,9 @@ fn main() {
     }
     let thorough = ctx.thorough();
     let seed = cli.seed;
-    let triples: Vec<(i64, i64, i64)> = if thorough {
+    // all 27 cost triples of {1,2,3}^3 in both tiers; the quick tier gives most work items ONE triple, rotating
+    // through the 27 (the rotation starts at a seed-dependent offset), the thorough tier gives them all
+    let triples: Vec<(i64, i64, i64)> = {
         let mut v = Vec::new();
         for a in 1..=3 {
             for x in 1..=3 {
@@ -298,9 +300,8 @@ fn main() {
             }
         }
         v
-    } else {
-        vec![(1, 1, 1), (1, 2, 3), (3, 1, 2), (2, 3, 1)]
     };
+    let rot = (seed as usize) % triples.len();
     // work items: (op, n, functions, costs)
     let mut rng = Rng::new(seed ^ 0xc18);
     let mut items: Vec<Ev> = Vec::new();
@@ -314,7 +315,7 @@ fn main() {
                     items.push(mk(op, n, &[x], *t));
                     // two outputs: every pair, triples rotated over the pairs in quick
                     for y in 0..count {
-                        if thorough || (x as usize * 7 + y as usize * 3 + ti) % triples.len() == 0 {
+                        if thorough || (x as usize * 7 + y as usize * 3 + ti + rot) % triples.len() == 0 {
                             items.push(mk(op, n, &[x, y], *t));
                         }
                     }
@@ -325,8 +326,15 @@ fn main() {
     for x in 0..256u64 {
         for (ti, t) in triples.iter().enumerate() {
             for op in ops {
-                if thorough || (x as usize + ti) % triples.len() == 0 {
+                if thorough || (x as usize + ti + rot) % triples.len() == 0 {
                     items.push(mk(op, 3, &[x], *t));
+                }
+                // the same function listed twice / three times (outputs that coincide): every function of n = 3
+                if op != "esop" {
+                    items.push(mk(op, 3, &[x, x], *t));
+                    if thorough || (x as usize * 5 + ti + rot) % triples.len() == 0 {
+                        items.push(mk(op, 3, &[x, x, x], *t));
+                    }
                 }
             }
         }
@@ -448,6 +456,9 @@ fn main() {
         }
         required.push(format!("{}|n=3|outputs=1", op));
         required.push(format!("{}|n=3|outputs=2", op));
+        if op != "esop" {
+            required.push(format!("{}|n=3|outputs=3", op));
+        }
         required.push(format!("{}|n=4|outputs=1", op));
         if op != "esop" {
             // sparse multi-output lists (covering optimizers only: the ESOP search space is not bounded by the on-sets)
